@@ -361,6 +361,11 @@ func (g *gen) probe() {
 }
 
 func genHistory(r *hx.Rng, tier string, i int) []hx.Zs {
+	if i%12 == 3 {
+		// a notification round held in its first write while a later subscriber is disconnected
+		count("notification-rounds-overlapped-by-a-disconnect")
+		return stack.RoundOverlap(r)
+	}
 	if i%12 == 7 {
 		// an entity announced again without (all of) its features, then torn down
 		count("entities-announced-again-then-torn-down")
